@@ -28,6 +28,12 @@ CHECKS.update({
    "NaN and the Invalid score are not constructible scores. The int8 wrap-around at |k|=127/128 is a recorded known finding.", "DESIGN.md §5 C09"),
 })
 
+CHECKS.update({
+ "C05": ("seq", "model_checking", "exhaustive enumeration of push sequences on real game boards vs reference game",
+   "All push sequences to depth n (17+ on confined fortresses, so five-fold repetition is reached; shuffles on the start position and on castling-rights roots; roots set up with clock 93..100; every placement of two bishops around a capture; K+minor / K+P material roots), also with the tail played on a Fork() taken at every depth and with a fresh board per path, each node compared with a reference game that counts occurrences over the whole game, keeps the FIDE clock and applies the insufficient-material rule as C05 words it.",
+   "Bounded by history length and move alphabets (stated in the evidence rule); the reference game is ~100 lines of linear scans.", "DESIGN.md §5 C05"),
+})
+
 NOT_YET = {}
 
 def main():
